@@ -261,6 +261,17 @@ def views(schema, cls, mv, wire, back):
         attempt('alt-repr', lambda: bytes(to_python_alt(schema, cls, mv, k).encode()) == wire)
     attempt('alt-repr-announced', lambda: to_python_alt(schema, cls, mv, 1).encoded_length() == len(wire))
     attempt('reencode', lambda: bytes(back.encode()) == wire)
+
+    def into_dirty(pad, fill):
+        # encode(wire, offset) into a caller-supplied buffer that held other data before: every octet of the
+        # encoding must be written (seed round 6: a zero Length octet was left to the buffer's initial content)
+        buf = bytearray([fill]) * (pad + len(wire) + 3)
+        inst = to_python_alt(schema, cls, mv, 0)
+        inst.encode(buf, pad)
+        return bytes(buf[pad:pad + len(wire)]) == wire and bytes(buf[:pad]) == bytes([fill]) * pad and \
+            bytes(buf[pad + len(wire):]) == bytes([fill]) * 3
+    attempt('encode-into-dirty-buffer', lambda: into_dirty(0, 0xFF))
+    attempt('encode-into-dirty-buffer', lambda: into_dirty(5, 0x5A))
     attempt('container:bytearray', lambda: kit.to_abstract(schema, cls.parse(bytearray(wire))) == mv)
     attempt('container:memoryview', lambda: kit.to_abstract(schema, cls.parse(memoryview(b'\x00' + wire)[1:])) == mv)
     attempt('attr', lambda: [plain_to_abstract(d, getattr(back, f.name)) for d, f in zip(schema, kit.model_fields(cls))] == mv)
